@@ -28,7 +28,7 @@ func (d *Decoder) readType() (string, error) {
 		d.typList = append(d.typList, t)
 		return t, nil
 	}
-	i, err := d.readInt(_tagRead)
+	i, err := d.readInt(int32(tag))
 	if err != nil {
 		return "", newCodecError("readType", err)
 	}
